@@ -38,7 +38,7 @@ theorem C19_div_error_iff (T : IntTy) (hw : 0 < T.bits) (x y : Int) (hx : T.InRa
   by_cases hy0 : y = 0
   · simp [hy0]
   · have c := exact_clauses T (x.tdiv y) _ rfl
-    simp only [if_neg hy0, hy0, iff_false, ne_eq, not_false_eq_true, true_and]
+    simp only [hy0, iff_false, ne_eq, not_false_eq_true, true_and]
     exact ⟨c.2.2.2.1, c.2.2.1, c.2.2.2.2⟩
 
 /-- the one quotient that is not representable -/
